@@ -63,11 +63,77 @@ def verified (f : Family) (algo : String) : Covered :=
     if h == "reject" then .rejected
     else if f == .sm2 then .sm2OverRaw else .digest h
 
+/-- the three creators with a `SignatureAlgorithm` in their template (`Certificate.CreateCRL` has none: it always
+    signs with the default of the key) -/
+inductive Creator | cert | csr | crl
+deriving DecidableEq, Repr
+
+def creators : List Creator := [.cert, .csr, .crl]
+
+/-- regenerated: what the creator hands to `signer.Sign` as options: ("hash-only", "") or
+    ("pss-iff-requested-isRSAPSS", the SaltLength it sets) -/
+def Creator.signerOpts : Creator → String × String
+  | .cert => signerOpts_CreateCertificate
+  | .csr => signerOpts_CreateCertificateRequest
+  | .crl => signerOpts_CreateRevocationList
+
+/-- the signature scheme proper (the hash is `Covered`'s business) -/
+inductive Scheme
+  | pkcs1v15               -- RSASSA-PKCS1-v1_5
+  | pss (salt : String)    -- RSASSA-PSS with this salt-length rule
+  | ecdsa
+  | sm2
+deriving DecidableEq, Repr
+
+/-- `SignatureAlgorithm.isRSAPSS()` -/
+def isRSAPSS (algo : String) : Bool := rsaPSSAlgos.contains algo
+
+/-- the scheme the signature is MADE with: decided by the signer's key, and for an RSA key
+    (`rsa.PrivateKey.Sign`) by the options: `*rsa.PSSOptions` gives PSS, a bare hash gives PKCS#1 v1.5.
+    The creator passes `*rsa.PSSOptions` only in its "if template.SignatureAlgorithm.isRSAPSS()" branch. -/
+def signSchemeWith (opts : String × String) (f : Family) (req : String) : Scheme :=
+  match f with
+  | .sm2 => .sm2
+  | .ecdsa256 | .ecdsa384 | .ecdsa521 => .ecdsa
+  | .rsa => if opts.1 == "pss-iff-requested-isRSAPSS" && isRSAPSS req then .pss opts.2 else .pkcs1v15
+
+def signScheme (c : Creator) (f : Family) (req : String) : Scheme := signSchemeWith c.signerOpts f req
+
+/-- regenerated: the guard that decides between raw TBS and digest in this creator -/
+def Creator.signInput : Creator → String
+  | .cert => signInput_CreateCertificate
+  | .csr => signInput_CreateCertificateRequest
+  | .crl => signInput_CreateRevocationList
+
+/-- `signed`, for each creator by its own guard -/
+def signedBy (c : Creator) (f : Family) (hash : String) : Covered :=
+  if c.signInput == "digest-unless-signer-key-is:sm2.PublicKey" then
+    (if f == .sm2 then .sm2OverRaw else .digest hash)
+  else .rejected
+
+/-- the scheme `checkSignature` VERIFIES with, for a verifier key of family `f` and the algorithm recovered from
+    the object -/
+def verifyScheme (f : Family) (algo : String) : Scheme :=
+  match f with
+  | .sm2 => .sm2
+  | .ecdsa256 | .ecdsa384 | .ecdsa521 => .ecdsa
+  | .rsa => if isRSAPSS algo then .pss verifyPSSSalt else .pkcs1v15
+
 /-- requested algorithms that belong to a key family -/
 def inFamily : Family → List String
   | .rsa => ["SHA1WithRSA", "SHA256WithRSA", "SHA384WithRSA", "SHA512WithRSA", "SHA256WithRSAPSS", "SHA384WithRSAPSS", "SHA512WithRSAPSS"]
   | .ecdsa256 | .ecdsa384 | .ecdsa521 => ["ECDSAWithSHA1", "ECDSAWithSHA256", "ECDSAWithSHA384", "ECDSAWithSHA512"]
   | .sm2 => ["SM2WithSM3", "SM2WithSHA1", "SM2WithSHA256"]
+
+/-- the scheme the emitted AlgorithmIdentifier NAMES (what any other implementation will verify with): by the
+    key algorithm of its row in `signatureAlgorithmDetails`; RSASSA-PSS by `isRSAPSS`, SM2 by the SM2 rows -/
+def namedScheme (algo : String) : Option Scheme :=
+  match details.find? (·.1 == algo) with
+  | none => none
+  | some (_, _, keyAlgo, _) =>
+    if keyAlgo == "RSA" then some (if isRSAPSS algo then .pss verifyPSSSalt else .pkcs1v15)
+    else if keyAlgo == "ECDSA" then some (if (inFamily .sm2).contains algo then .sm2 else .ecdsa)
+    else none
 
 /-- the creator accepts the template (as far as the signature algorithm is concerned) -/
 def accepts (f : Family) (req : String) : Bool := (resolve f req).isSome
